@@ -292,6 +292,14 @@ def strategy(focus="membership"):
                 act = draw(st.sampled_from(["stale", "drop", "delay"]))
             faults.append({"sel": sel, "k": draw(st.integers(0, 8)), "act": act, "code": draw(st.sampled_from(ERR[sel])),
                            "delay": draw(st.sampled_from([0.05, 0.4, 1.2]))})
+        if draw(st.integers(0, 2)) == 0:
+            # a burst: the same kind of request is refused several times in a row (a coordinator that moved and is
+            # still loading answers NOT_COORDINATOR, then COORDINATOR_NOT_AVAILABLE / LOAD_IN_PROGRESS)
+            sel = draw(st.sampled_from(["offset_commit", "offset_commit", "heartbeat", "join", "sync", "offset_fetch"]))
+            k0 = draw(st.integers(0, 6))
+            for j in range(draw(st.integers(2, 3))):
+                faults.append({"sel": sel, "k": k0 + j, "act": "error",
+                               "code": draw(st.sampled_from([c for c in ERR[sel] if c in (14, 15, 16)] or ERR[sel])), "delay": 0.05})
         env = []
         for _ in range(draw(st.integers(0, 3))):
             r = draw(st.integers(0, 5))
